@@ -158,3 +158,46 @@ Definition subsample (n : Z) (a : axis) (by_id with_replacement : bool)
     if by_id then (self, ROk (subsample_by_id (Z.to_nat n) a (nth 0 draws []) table))
     else if with_replacement then (self, subsample_replace a lay draws table)
     else (self, ROk (subsample_counts (Z.to_nat n) a lay draws table)).
+
+(* ------------------------------------------------------------------------------------------
+   vocabulary of the specifications (Props/C12.v) *)
+(* unit positions: entry k of a segment with counts [a] owns the units off a k .. off a k + a_k - 1 *)
+Definition off (a : list Z) (k : nat) : Z := zsum (firstn k a).
+Definition inb (lo hi p : Z) : bool := (lo <=? p)%Z && (p <? hi)%Z.
+(* number of elements of P in [lo, hi) *)
+Definition cnt (lo hi : Z) (P : list Z) : Z := Z.of_nat (length (filter (inb lo hi) P)).
+
+(* every element is smaller than (not larger than) all later ones *)
+Fixpoint incr (l : list Z) : Prop :=
+  match l with [] => True | x :: t => Forall (fun q => (x < q)%Z) t /\ incr t end.
+Fixpoint nondecr (l : list Z) : Prop :=
+  match l with [] => True | x :: t => Forall (fun q => (x <= q)%Z) t /\ nondecr t end.
+Fixpoint incrb (l : list Z) : bool :=
+  match l with [] => true | x :: t => forallb (fun q => (x <? q)%Z) t && incrb t end.
+
+(* contract of  sorted(rng.choice(total, n, replace=False)) : n distinct values in [0, total) *)
+Definition choice_ok (total : Z) (n : nat) (P : list Z) : Prop :=
+  incr P /\ Forall (fun p => (0 <= p < total)%Z) P /\ length P = n.
+Definition choice_okb (total : Z) (n : nat) (P : list Z) : bool :=
+  incrb P && forallb (fun p => (0 <=? p)%Z && (p <? total)%Z) P && Nat.eqb (length P) n.
+
+(* the recorded draws fit the vectors that reach rng.choice (those with total >= n), in order *)
+Fixpoint draws_ok (n : nat) (totals : list Z) (draws : list (list Z)) : Prop :=
+  match totals with
+  | [] => True
+  | s :: ts => if (s <? Z.of_nat n)%Z then draws_ok n ts draws
+               else match draws with [] => False | P :: rest => choice_ok s n P /\ draws_ok n ts rest end
+  end.
+
+(* contract of  rng.multinomial(n, pvals)  with pvals = seg / sum(seg) *)
+Definition multi_ok (n : nat) (seg d : list Z) : Prop :=
+  length d = length seg /\ Forall (fun x => (0 <= x)%Z) d /\ zsum d = Z.of_nat n /\
+  (forall k, nth k seg 0%Z = 0%Z -> nth k d 0%Z = 0%Z).
+Fixpoint multis_ok (n : nat) (segs draws : list (list Z)) : Prop :=
+  match segs with
+  | [] => True
+  | s :: ss => match draws with [] => False | d :: rest => multi_ok n s d /\ multis_ok n ss rest end
+  end.
+
+Definition nonneg_table (t : table) : Prop := Forall (Forall (fun x => (0 <= x)%Z)) (mat t).
+Definition nonneg_tableb (t : table) : bool := forallb (forallb (fun x => (0 <=? x)%Z)) (mat t).
